@@ -99,3 +99,25 @@ contract(C + 'ContactlessFrontend.connect', 'C18',
              'card': OneOf(None, DictOf({'on-startup': CB('lambda target: None if nondet_bool() else 7')}))})),
          name='C18/connect.nothing-survives-startup', requires=['self.device is not None'],
          ensures=[('post.none', 'result is None')], raises={})
+
+# peer-to-peer activation: on-connect once for the first successful activation (target role tried first, then
+# initiator), the link loop runs only after a true on-connect, on-release exactly once after it, documented results
+contract(C + 'ContactlessFrontend._llcp_connect', 'C18',
+         dict(self=clf(),
+              options=DictOf({'llc': Obj('models.clf_models:LlcEvModel', _partial=False, clf=Ref('self')),
+                              'role': OneOf(None, 'target', 'initiator'),
+                              'on-connect': EV('connect', 'nondet_bool()'), 'on-release': EV('release', 'nondet_int(0, 1)')}),
+              terminate=CB('lambda: nondet_bool()')),
+         name='C18/_llcp_connect',
+         setup=lambda ex, env: (c15_setup(ex, env), reset_events(ex, env)), hooks={'on_acquire': on_acquire},
+         ensures=[('post.connect-once', 'count(EVENTS, "connect") <= 1 and count(EVENTS, "release") <= 1 and '
+                                        'count(EVENTS, "activate") <= 2'),
+                  ('post.order', 'count(EVENTS, "release") == 0 or (EVENTS[-1] == "release" and EVENTS[-2] == "run" '
+                                 'and EVENTS[-3] == "connect" and EVENTS[-4] == "activate")'),
+                  ('post.release-once', '(count(EVENTS, "release") == 1) == (count(EVENTS, "run") == 1) and '
+                                        '(count(EVENTS, "release") == 1) == (result == 0 or result == 1)'),
+                  ('post.result', 'result is None or result == 0 or result == 1 or '
+                                  '(result is options["llc"] and count(EVENTS, "connect") == 1 and '
+                                  'count(EVENTS, "release") == 0)'),
+                  ('post.none', 'implies(result is None, count(EVENTS, "connect") == 0)')],
+         raises={'IOError': []})
